@@ -30,7 +30,8 @@ Correspondence (every run, against the working tree of /repo):
   forked process: every numbering of the template (as written, a permutation of its atom-map numbers, an
   injection into other numbers) with `automorphism=True`, repetitions, random order, `automorphism`
   on/off, strategies all/comp/bt, template as ITS graph / string / shared SynRule object, substrate as
-  SMILES (rewritten) / shared SynGraph object, optionally interleaved with a second pair.  Gate, per
+  SMILES (rewritten; a quarter of those through the alternate constructor `SynReactor.from_smiles`) / shared SynGraph object,
+  optionally interleaved with a second pair.  Gate, per
   step: result set with pruning == set obtained by gluing EVERY raw match of that step through the
   reactor's own internals (compared as sets of `Standardize.fit` strings, Kekule-form-only differences
   counted as in C05).  A violating history is minimised (fresh process per attempt) to the shortest
@@ -42,6 +43,18 @@ Correspondence (every run, against the working tree of /repo):
   hydrogen count, one side of a bond-order pair; balanced on an atom and its image or on one position only) or none (control),
   optionally with equal context atoms; applied forwards and backwards, as centre and as full template, to substrates grown from
   the matched side with random substituents so that the exchanged positions differ chemically; same histories, same gate.
+* alternative entry points and options (anchor coverage, coverage/C11.json), stream `entry`: `anchor_largest_component=False`, the
+  empty graph / single nodes / edgeless graphs, node ids that are negative ints / strings / tuples / a mixture (the model sees the
+  graph under a bijection of the ids onto naturals), `len(A)` / `A.is_connected` / `repr(A)` read in between, the estimate through
+  `groups` / `orbit_index` / `node_colors` / `n_orbits` / `n_groups` / `len(E)` and through `estimate_automorphism_groups` with
+  list / tuple / one-shot-iterator key arguments, empty key lists; in stream `dedup` a third of the calls hands the `Iterable`
+  arguments over as tuples / one-shot iterators / plain lists or sets per orbit and passes `host_anchor` (documented as without
+  influence); in every reactor step with >= 2 raw matches the pruning routine's documented fall-back (`max_group` exceeded ->
+  nothing pruned) is called on that step's raw matches with max_group=0; stream `reactor-partial`: `SynReactor(partial=True)`
+  (matches, partial ones included, from `PartialMatcher`), gate at full strength: the result set equals the set obtained by gluing
+  EVERY match of `PartialMatcher(prune_auto=False)` of that very step (and the set from the matches the reactor was handed; no
+  result that no match gives; no exception inside the pruning).  Finding F30: before /repo 0cd96bf the partial matcher pre-pruned
+  by the multiset of estimated host orbits and lost distinct reactions (regress/C11/f30_partial_host_orbit_pruning.json).
 """
 import itertools
 import json
@@ -111,18 +124,30 @@ def impl_wl(G, nk, ek, max_iter):
     return {"orbits": canon_sets(E.orbits), "anchor": sorted(int(v) for v in E.anchor_component)}
 
 
-def impl_dedup(matches, po, pa, ho):
+def impl_dedup(matches, po, pa, ho, form=None):
+    """`form` (optional): how the documented `Iterable` arguments are handed over - {"matches": list|tuple|iter,
+    "orbits": list|tuple|iter (the container), "orbit": frozenset|set|tuple|list (each orbit), "anchor": frozenset|set,
+    "host_anchor": None | [host nodes] (documented as kept for API symmetry: the answer must not depend on it)}"""
     from synkit.Graph.Matcher.dedup_matches import deduplicate_matches_with_anchor
 
+    form = form or {}
+    cont = {"list": list, "tuple": tuple, "iter": iter}
+    orb = {"frozenset": frozenset, "set": set, "tuple": tuple, "list": list}[form.get("orbit", "frozenset")]
+    anc = {"frozenset": frozenset, "set": set}[form.get("anchor", "frozenset")]
     ms = [{p: h for p, h in m} for m in matches]
+    kw = {}
+    if form.get("host_anchor") is not None:
+        kw["host_anchor"] = frozenset(form["host_anchor"])
     try:
         r = deduplicate_matches_with_anchor(
-            ms,
-            pattern_orbits=None if po is None else [frozenset(o) for o in po],
-            pattern_anchor=None if pa is None else frozenset(pa),
-            host_orbits=None if ho is None else [frozenset(o) for o in ho])
+            cont[form.get("matches", "list")](ms),
+            pattern_orbits=None if po is None else cont[form.get("orbits", "list")]([orb(o) for o in po]),
+            pattern_anchor=None if pa is None else anc(pa),
+            host_orbits=None if ho is None else cont[form.get("orbits", "list")]([orb(o) for o in ho]), **kw)
     except ValueError:
         return {"error": "ValueError"}
+    if not isinstance(r, list):
+        return {"error": "not a list: " + type(r).__name__}
     return {"kept": [[[int(p), int(h)] for p, h in m.items()] for m in r]}
 
 
@@ -769,6 +794,259 @@ def run_sessions(ctx, sessions, stream):
             return
 
 
+# ---------------------------------------------------------------- alternative entry points and options (stream `entry`)
+# The documented ways into the two analyses that the streams above never take:
+# * `Automorphism(..., anchor_largest_component=False)` (no anchor is reported; counts and orbits as before);
+# * the empty graph (no orbit, one automorphism, no anchor, connected), single nodes, isolated nodes;
+# * node ids that are not non-negative ints (`NodeId = int | str | tuple | object`): negative ints, strings (whose order
+#   differs from the numeric one), tuples, and for the exact analysis a mixture of the three (its orbit list is sorted by repr);
+#   the Lean model sees the same graph under a bijection of the ids onto naturals, the answers are mapped back;
+# * the other public views of the exact analysis: `len(A)`, `A.is_connected`, `repr(A)` (read in between, in random order);
+# * the other public views of the estimate: `groups`, `orbit_index`, `node_colors`, `n_orbits`, `n_groups`, `len(E)`, and the
+#   convenience function `estimate_automorphism_groups(graph, node_attrs, edge_attrs, max_iter)` with the key lists handed
+#   over as list / tuple / one-shot iterator; `node_attrs=[]` / `edge_attrs=[]` (the class docstring's own example);
+# * key lists as tuples.
+# Expected answers: the Lean model (`aut.exact` with the `anchor_largest` flag, `aut.wl`); every view of the estimate must
+# describe the model's partition, and must not separate an exact orbit.
+ID_KINDS = ["int", "neg", "str", "tuple", "mixed"]
+EXACT_VIEWS = ["anchor", "orbits", "n_aut", "components", "len", "is_connected", "repr"]
+EST_VIEWS = ["orbits", "groups", "orbit_index", "node_colors", "n_orbits", "n_groups", "len", "anchor"]
+
+
+def entry_id(kind, v):
+    """The id the implementation sees for the model's node v (injective on naturals for every kind)."""
+    if kind == "int":
+        return v
+    if kind == "neg":
+        return 3 - v                        # order reversed, negative from 4 on
+    if kind == "str":
+        return "a%d" % v                    # "a10" < "a2": another order than the numeric one
+    if kind == "tuple":
+        return (v % 3, v // 3)
+    return [v, "s%d" % v, ("t", v)][v % 3]  # mixed: ints, strings and tuples in one graph
+
+
+def entry_graph(gj, kind):
+    """-> (graph with the ids of `kind`, same node and edge insertion order; table impl id -> model id)"""
+    G = graphio.to_nx(gj)
+    import networkx as nx
+
+    H = nx.Graph()
+    back = {}
+    for v, d in G.nodes(data=True):
+        H.add_node(entry_id(kind, v), **dict(d))
+        back[entry_id(kind, v)] = v
+    for u, v, d in G.edges(data=True):
+        H.add_edge(entry_id(kind, u), entry_id(kind, v), **dict(d))
+    return H, back
+
+
+def _keys_as(keys, form):
+    if keys is None:
+        return None
+    return {"list": list, "tuple": tuple, "iter": iter}[form](keys)
+
+
+def impl_entry(c):
+    """Run the implementation on one `entry` case.  -> (exact answers, estimate answers | None), ids mapped back to the model's"""
+    from synkit.Graph.Matcher.automorphism import Automorphism
+    from synkit.Graph.Matcher.auto_est import AutoEst, estimate_automorphism_groups
+
+    H, back = entry_graph(c["graph"], c["ids"])
+    sets = lambda xs: sorted(sorted(back[v] for v in x) for x in xs)  # noqa: E731
+    nk, ek = c["node_keys"], c["edge_keys"]
+    kf = c.get("keys_as", "list")
+    A = Automorphism(H, node_attr_keys=_keys_as(nk, "tuple" if kf == "tuple" else "list"),
+                     edge_attr_keys=_keys_as(ek, "tuple" if kf == "tuple" else "list"),
+                     anchor_largest_component=c["anchor_largest"])
+    ie = {}
+    for a in c["exact_views"]:
+        if a == "anchor":
+            anc = A.anchor_component
+            ie["anchor"] = None if anc is None else sorted(back[v] for v in anc)
+        elif a == "orbits":
+            ie["orbits"] = sets(A.orbits)
+        elif a == "n_aut":
+            ie["n_aut"] = int(A.n_automorphisms)
+        elif a == "components":
+            ie["components"] = sets(A.components)
+        elif a == "len":
+            ie["len"] = len(A)
+        elif a == "is_connected":
+            ie["is_connected"] = bool(A.is_connected)
+        else:
+            ie["repr"] = repr(A)
+    if c["ids"] == "mixed":
+        return ie, None               # the estimate orders its classes by min(id): ids must be mutually comparable
+    try:
+        if c["est_via"] == "function":
+            E = estimate_automorphism_groups(H, node_attrs=_keys_as(nk, kf), edge_attrs=_keys_as(ek, kf), max_iter=c["max_iter"])
+        else:
+            E = AutoEst(H, node_attrs=_keys_as(nk, "list"), edge_attrs=_keys_as(ek, "list"), max_iter=c["max_iter"]).fit()
+    except TypeError:
+        return ie, {"error": "TypeError"}   # sorting signatures that mix None and numbers: graphs with missing labels only
+    iw = {}
+    for a in c["est_views"]:
+        if a == "orbits":
+            iw["orbits"] = sets(E.orbits)
+        elif a == "groups":
+            iw["groups"] = sets(E.groups)
+        elif a in ("orbit_index", "node_colors"):
+            cls = {}
+            for v, k in getattr(E, a).items():
+                cls.setdefault(k, []).append(v)
+            iw[a] = sets(cls.values())
+        elif a == "n_orbits":
+            iw["n_orbits"] = int(E.n_orbits)
+        elif a == "n_groups":
+            iw["n_groups"] = int(E.n_groups)
+        elif a == "len":
+            iw["len"] = len(E)
+        else:
+            iw["anchor"] = sorted(back[v] for v in E.anchor_component)
+    return ie, iw
+
+
+def entry_requests(c):
+    nk, ek = c["node_keys"], c["edge_keys"]
+    return [{"cmd": "aut.exact", "graph": c["graph"], "node_keys": list(nk or []), "edge_keys": list(ek or []), "anchor_largest": c["anchor_largest"]},
+            {"cmd": "aut.wl", "graph": c["graph"], "node_keys": NK if nk is None else list(nk), "edge_keys": EK if ek is None else list(ek),
+             "max_iter": c["max_iter"]}]
+
+
+def entry_diffs(c, mex, mwl):
+    """-> list of (what, detail, the property's own predicate is violated)"""
+    try:
+        ie, iw = impl_entry(c)
+    except Exception as e:  # noqa: BLE001 - the analyses are total on labelled graphs: an exception is an answer that is missing
+        return [("the analysis raises " + type(e).__name__ + " on a documented input", {"error": str(e)[:300]}, True)], None, None
+    out = []
+    comps = mex["components"]
+    multi = len(comps) > 1
+    if ie["components"] != comps:
+        out.append(("components differ from the model", {"impl": ie["components"], "model": comps}, False))
+    if ie["n_aut"] != mex["n_aut"]:
+        out.append(("number of automorphisms differs from the proven model", {"impl": ie["n_aut"], "model": mex["n_aut"]}, True))
+    if ie["orbits"] != mex["orbits"]:
+        out.append(("exact orbits differ from the proven model", {"impl": ie["orbits"], "model": mex["orbits"]}, True))
+    if ie["len"] != len(mex["orbits"]):
+        out.append(("len(Automorphism) is not the number of orbits", {"impl": ie["len"], "model": len(mex["orbits"])}, True))
+    if ie["is_connected"] != (len(comps) <= 1):
+        out.append(("Automorphism.is_connected disagrees with the components", {"impl": ie["is_connected"], "components": comps}, False))
+    if c["anchor_largest"]:
+        if not largest_ok(ie["anchor"], comps, multi) or (ie["anchor"] is not None and not multi):
+            out.append(("exact anchor is not a largest component", {"impl": ie["anchor"], "model": mex["anchor"]}, True))
+    elif ie["anchor"] is not None:
+        out.append(("an anchor is reported although anchor_largest_component=False", {"impl": ie["anchor"]}, False))
+    if iw is None:
+        return out, ie, iw
+    if "error" in iw:
+        if c["complete"]:
+            out.append(("the orbit estimate raises on a graph that carries every selected label", {"impl": iw["error"]}, True))
+        return out, ie, iw
+    for view in ("orbits", "groups", "orbit_index", "node_colors"):
+        if iw[view] != mwl["orbits"]:
+            out.append((f"WL orbit estimate (AutoEst.{view}) differs from the model", {"impl": iw[view], "model": mwl["orbits"], "max_iter": c["max_iter"]}, False))
+            break
+    for view in ("n_orbits", "n_groups", "len"):
+        if iw[view] != len(mwl["orbits"]):
+            out.append((f"AutoEst {view} is not the number of estimated classes", {"impl": iw[view], "model": len(mwl["orbits"])}, False))
+            break
+    if not largest_ok(iw["anchor"], comps, True):
+        out.append(("estimate's anchor is not a largest component", {"impl": iw["anchor"], "model": mwl["anchor"]}, True))
+    if c["complete"]:
+        for view in ("orbits", "groups", "orbit_index", "node_colors"):
+            cls = {v: i for i, o in enumerate(iw[view]) for v in o}
+            bad = [o for o in mex["orbits"] if len({cls.get(v) for v in o}) > 1]
+            if bad:
+                out.append((f"the orbit estimate (AutoEst.{view}) separates two nodes of one exact orbit",
+                            {"exact_orbit": bad[0], "estimate": iw[view], "max_iter": c["max_iter"]}, True))
+                break
+    return out, ie, iw
+
+
+def entry_case(rnd):
+    r = rnd.random()
+    if r < 0.04:
+        tag, G = "empty", mk_graph([], [], [])
+    elif r < 0.08:
+        tag, G = "single", mk_graph([0], [], [rnd.choice(ELEMS)])
+    elif r < 0.13:
+        n = rnd.randint(2, 4)
+        tag, G = "isolated", mk_graph(list(range(n)), [], [rnd.choice(["C", "C", "N"]) for _ in range(n)])
+    elif r < 0.3:
+        tag, G, _, _ = keys_case(rnd)
+        for _, d in G.nodes(data=True):        # default keys only in this stream
+            for k in [k for k in d if k not in NK]:
+                del d[k]
+        for _, _, d in G.edges(data=True):
+            for k in [k for k in d if k not in EK]:
+                del d[k]
+    elif r < 0.4:
+        tag, G = malformed(rnd)
+    else:
+        tag, G = base_graph(rnd)
+    G = scramble(rnd, G)
+    nk, ek = rnd.choice([(NK, EK), (NK, EK), (None, None), (["element"], EK), ([], []), (NK, []), (["charge", "element"], EK)])
+    ev, wv = EXACT_VIEWS[:], EST_VIEWS[:]
+    rnd.shuffle(ev)
+    rnd.shuffle(wv)
+    return {"kind": "entry", "tag": tag, "graph": graphio.graph(G), "ids": rnd.choice(ID_KINDS), "node_keys": nk, "edge_keys": ek,
+            "max_iter": rnd.choice([0, 1, 2, 3, 10, 10, 10]), "anchor_largest": rnd.random() < 0.5,
+            "keys_as": rnd.choice(["list", "tuple", "iter"]), "est_via": rnd.choice(["ctor", "function"]),
+            "exact_views": ev, "est_views": wv,
+            "complete": attr_complete(G, nk or NK, ek or EK)}
+
+
+def run_entry(ctx, cases, stream):
+    reqs = []
+    for c in cases:
+        reqs += entry_requests(c)
+    reps = ctx.lean().ok(reqs, shards=8)
+    for i, c in enumerate(cases):
+        mex, mwl = reps[2 * i], reps[2 * i + 1]
+        diffs, ie, iw = entry_diffs(c, mex, mwl)
+        n = len(c["graph"]["nodes"])
+        ncomp = len(mex["components"])
+        ctx.count(f"{stream}:base:" + c.get("tag", "?").split("-")[0])
+        ctx.count(f"{stream}:ids:" + c["ids"])
+        ctx.count(f"{stream}:anchor_largest:" + str(c["anchor_largest"]))
+        ctx.count(f"{stream}:components:%s" % (ncomp if ncomp < 4 else "4+"))
+        ctx.count(f"{stream}:nodes:%s" % (n if n < 2 else "2-4" if n <= 4 else "5+"))
+        ctx.count(f"{stream}:keys:" + ("default(None)" if c["node_keys"] is None else "empty" if not c["node_keys"] else "given"))
+        if iw is not None and "error" in iw:
+            ctx.count(f"{stream}:estimate_TypeError(labels missing)")
+        elif iw is not None:
+            ctx.count(f"{stream}:estimate_via:" + c["est_via"] + ("/" + c["keys_as"] if c["est_via"] == "function" else ""))
+        else:
+            ctx.count(f"{stream}:estimate_not_asked(mixed id types)")
+        ctx.count("nodes:%d" % n if n < 10 else "nodes:10+")
+        ctx.case([c["graph"], c["ids"], c["node_keys"], c["edge_keys"], c["max_iter"], c["anchor_largest"], c["est_via"]],
+                 nontrivial=(n >= 2 and (mex["n_aut"] > 1 or ncomp > 1)))
+        if not diffs:
+            continue
+        # minimise: nodes, then edges
+        def fails_sub(gj):
+            c2 = dict(c, graph=gj)
+            m1, m2 = ctx.lean().ok(entry_requests(c2))
+            return bool(entry_diffs(c2, m1, m2)[0])
+
+        nodes, edges = c["graph"]["nodes"], c["graph"]["edges"]
+        nodes = shrink_seq(nodes, lambda ns: fails_sub({"nodes": ns, "edges": [e for e in edges if e[0] in {x[0] for x in ns} and e[1] in {x[0] for x in ns}]}), budget=60)
+        ids = {x[0] for x in nodes}
+        edges = [e for e in edges if e[0] in ids and e[1] in ids]
+        edges = shrink_seq(edges, lambda es: fails_sub({"nodes": nodes, "edges": es}), budget=60)
+        c2 = dict(c, graph={"nodes": nodes, "edges": edges})
+        m1, m2 = ctx.lean().ok(entry_requests(c2))
+        d2, ie2, iw2 = entry_diffs(c2, m1, m2)
+        what, detail, spec_violated = (d2 or diffs)[0]
+        ctx.violation(what + f" (node ids: {c['ids']}, anchor_largest_component={c['anchor_largest']}, estimate via {c['est_via']})", c2,
+                      {"detail": detail, "impl_exact": ie2, "impl_wl": iw2, "model_exact": m1, "model_wl_orbits": m2["orbits"], "stream": stream},
+                      no_input=not spec_violated)
+        if len(ctx.violations) >= 5:
+            return
+
+
 # ---------------------------------------------------------------- dedup stream
 def pattern_for(rnd):
     import networkx as nx
@@ -885,7 +1163,14 @@ def dedup_case(rnd):
         from networkx.algorithms.isomorphism import GraphMatcher, categorical_node_match, categorical_edge_match
         gm = GraphMatcher(pat, pat, node_match=categorical_node_match(NK, ["*", 0]), edge_match=categorical_edge_match(EK, [1.0]))
         info = [dict(a) for a in gm.isomorphisms_iter()]
-    return f"{pk}/{strategy}/{mode}", matches, po, pa, ho, info
+    form = None
+    if rnd.random() < 0.35:
+        # the documented argument types are Iterable[...]: other containers, one-shot iterators; host_anchor (ignored by design)
+        hs = sorted(host.nodes)
+        form = {"matches": rnd.choice(["list", "tuple", "iter"]), "orbits": rnd.choice(["list", "tuple", "iter"]),
+                "orbit": rnd.choice(["frozenset", "set", "tuple", "list"]), "anchor": rnd.choice(["frozenset", "set"]),
+                "host_anchor": rnd.choice([None, sorted(rnd.sample(hs, rnd.randint(0, len(hs)))), hs])}
+    return f"{pk}/{strategy}/{mode}", matches, po, pa, ho, info, form
 
 
 def is_sublist(small, big):
@@ -893,12 +1178,14 @@ def is_sublist(small, big):
     return all(any(x == y for y in it) for x in small)
 
 
-def dedup_diffs(matches, po, pa, ho, model):
-    impl = impl_dedup(matches, po, pa, ho)
+def dedup_diffs(matches, po, pa, ho, model, form=None):
+    impl = impl_dedup(matches, po, pa, ho, form)
     out = []
     if "kept" in impl and not is_sublist(impl["kept"], matches):
         out.append(("de-duplication result is not a sub-list of its input in the original order", True))
-    if ("error" in impl) != ("error" in model):
+    if impl.get("error", "").startswith("not a list"):
+        out.append(("de-duplication does not return a list (" + impl["error"] + ")", True))
+    elif ("error" in impl) != ("error" in model):
         out.append(("de-duplication raises where the model does not (or vice versa)", False))
     elif "kept" in impl and impl["kept"] != model["kept"]:
         out.append(("de-duplication keeps other matches than the model", False))
@@ -911,6 +1198,7 @@ def run_dedup(ctx, cases, stream):
     for case, model in zip(cases, reps):
         tag, ms, po, pa, ho = case[:5]
         info = case[5] if len(case) > 5 else None
+        form = case[6] if len(case) > 6 else None
         if info is not None and "kept" in model:
             # recorded, not gated: dropped matches that are NOT a kept match composed with a pattern automorphism
             kept = [dict(map(tuple, k)) for k in model["kept"]]
@@ -922,9 +1210,13 @@ def run_dedup(ctx, cases, stream):
                 related = any(tuple(sorted((p, dm[tau[p]]) for p in dm)) in keptset for tau in info)
                 ctx.count("recorded:dropped_match_" + ("is_kept_match_composed_with_a_pattern_automorphism" if related
                                                         else "NOT_related_to_any_kept_match_by_a_pattern_automorphism"))
-        diffs, impl = dedup_diffs(ms, po, pa, ho, model)
+        diffs, impl = dedup_diffs(ms, po, pa, ho, model, form)
         mode = tag.split("/")[-1]
         ctx.count(f"{stream}:mode:{mode}")
+        if form is not None:
+            ctx.count(f"{stream}:call_form:matches={form['matches']}")
+            ctx.count(f"{stream}:call_form:orbit_container={form['orbits']}/{form['orbit']}")
+            ctx.count(f"{stream}:call_form:host_anchor=" + ("absent" if form["host_anchor"] is None else "given"))
         ctx.count("dedup_matches_in", len(ms))
         if "kept" in model:
             ctx.count("dedup_matches_kept", len(model["kept"]))
@@ -938,12 +1230,13 @@ def run_dedup(ctx, cases, stream):
         if diffs:
             def fails(cand):
                 m2 = ctx.lean().ok([{"cmd": "aut.dedup", "matches": cand, "pattern_orbits": po, "pattern_anchor": pa, "host_orbits": ho}])[0]
-                return bool(dedup_diffs(cand, po, pa, ho, m2)[0])
+                return bool(dedup_diffs(cand, po, pa, ho, m2, form)[0])
             small = shrink_seq(ms, fails, budget=80)
             m2 = ctx.lean().ok([{"cmd": "aut.dedup", "matches": small, "pattern_orbits": po, "pattern_anchor": pa, "host_orbits": ho}])[0]
-            d2, impl2 = dedup_diffs(small, po, pa, ho, m2)
+            d2, impl2 = dedup_diffs(small, po, pa, ho, m2, form)
             what, spec_violated = (d2 or diffs)[0]
-            ctx.violation(what, {"kind": "dedup", "matches": small, "pattern_orbits": po, "pattern_anchor": pa, "host_orbits": ho},
+            ctx.violation(what, dict({"kind": "dedup", "matches": small, "pattern_orbits": po, "pattern_anchor": pa, "host_orbits": ho},
+                                     **({"form": form} if form is not None else {})),
                           {"impl": impl2, "model": m2, "stream": stream, "tag": tag}, no_input=not spec_violated)
             if len(ctx.violations) >= 5:
                 return
@@ -1000,14 +1293,28 @@ def _history_step(sr, std, step, rules):
                 rules[key] = sr.SynRule(tpl, canonicaliser=sr.GraphCanonicaliser(), **({"implicit_h": False} if kw.get("implicit_temp") else {}))
             tpl = rules[key]
     calls = []
+    patterns = []
+    every = []
     orig = sr.SubgraphSearchEngine
+    orig_pm = getattr(sr, "PartialMatcher", None)
+    partial = bool(step.get("partial"))
 
     class Recorder(orig):  # what the search returned, before any pruning
         @staticmethod
         def find_subgraph_mappings(*a, **k):
             r = orig.find_subgraph_mappings(*a, **k)
             calls.append(r)
+            patterns.append(k.get("pattern"))
             return r
+
+    if partial:
+        class RecorderPM(orig_pm):  # partial=True: what the partial matcher handed to the reactor, and EVERY match it found
+            def __init__(self, *a, **k):
+                super().__init__(*a, **k)
+                calls.append(list(self.get_mappings()))
+                patterns.append(k.get("pattern"))
+                # the same search without the matcher's own (host-orbit) pruning: every match, partial ones included
+                every.append(list(orig_pm(*a, **dict(k, prune_auto=False)).get_mappings()))
 
     sub = step["substrate"]
     if step.get("sform") == "syngraph":
@@ -1017,9 +1324,16 @@ def _history_step(sr, std, step, rules):
             from synkit.IO.chem_converter import smiles_to_graph
             rules[key] = sr.SynGraph(smiles_to_graph(sub, use_index_as_atom_map=False, drop_non_aam=False), sr.GraphCanonicaliser())
         sub = rules[key]
-    reactor = sr.SynReactor(sub, tpl, invert=step["invert"], strategy=step["strategy"],
-                            automorphism=step["automorphism"], **kw)
-    sr.SubgraphSearchEngine = Recorder
+    if step.get("ctor") == "from_smiles" and isinstance(sub, str) and not partial:
+        # the documented alternate constructor (it has no `partial` parameter)
+        reactor = sr.SynReactor.from_smiles(sub, tpl, invert=step["invert"], strategy=step["strategy"], automorphism=step["automorphism"], **kw)
+    else:
+        reactor = sr.SynReactor(sub, tpl, invert=step["invert"], strategy=step["strategy"],
+                                automorphism=step["automorphism"], **(dict(kw, partial=True) if partial else kw))
+    if partial:
+        sr.PartialMatcher = RecorderPM
+    else:
+        sr.SubgraphSearchEngine = Recorder
     pruned_error = None
     try:
         try:
@@ -1033,8 +1347,14 @@ def _history_step(sr, std, step, rules):
             pruned_error = type(e).__name__
     finally:
         sr.SubgraphSearchEngine = orig
+        if partial:
+            sr.PartialMatcher = orig_pm
     raw = [dict(m) for m in calls[0]] if calls else None
     out["n_raw"] = None if raw is None else len(raw)
+    if partial and raw is not None and patterns and patterns[0] is not None:
+        npat = patterns[0].number_of_nodes()
+        out["n_partial"] = sum(1 for m in raw if len(m) < npat)
+        out["n_every"] = len(every[0]) if every else None
 
     def fitted(smarts):
         res = set()
@@ -1058,6 +1378,29 @@ def _history_step(sr, std, step, rules):
         reactor._its = None
         reactor._smarts = None
         out["results_raw"] = fitted(list(reactor.smarts_list))
+        if partial and every:
+            reactor._mappings = [dict(m) for m in every[0]]
+            reactor._its = None
+            reactor._smarts = None
+            out["results_every"] = fitted(list(reactor.smarts_list))
+        # the documented fall-back of the pruning ("if the rule has more than max_group automorphisms nothing is pruned"),
+        # reached through the pruning routine's own parameter: every match must come back, in the order given
+        prune = getattr(sr.SynReactor, "_prune_by_rule_automorphisms", None)
+        if prune is not None and len(raw) >= 2 and patterns and patterns[0] is not None and step.get("overflow", True):
+            try:
+                back = prune([dict(m) for m in raw], reactor.rule.rc.raw, list(patterns[0].nodes()), max_group=0)
+                same = [dict(m) for m in back] == raw
+                out["overflow"] = "all-kept" if same else "differs"
+                if not same:
+                    reactor._mappings = [dict(m) for m in back]
+                    reactor._its = None
+                    reactor._smarts = None
+                    out["results_overflow"] = fitted(list(reactor.smarts_list))
+                    out["n_overflow"] = len(back)
+            except RC.CaseTimeout:
+                raise
+            except Exception as e:  # noqa: BLE001
+                out["overflow"] = "raised:" + type(e).__name__
     return out
 
 
@@ -1168,6 +1511,23 @@ def step_verdict(r):
     if r["status"] != "ok" or r.get("results") is None or r.get("results_raw") is None:
         return None
     cmp = C05._Cmp()
+    if r.get("overflow", "all-kept") != "all-kept":
+        if r["overflow"].startswith("raised") or not cmp.equal(r["results_raw"], r.get("results_overflow") or []):
+            return ("the pruning's fall-back for rules with more than max_group automorphisms (max_group=0 here) does not keep the set of "
+                    "distinct reactions of every raw match", {"overflow": r["overflow"], "raw_matches": r["n_raw"], "returned": r.get("n_overflow"),
+                                                              "every_raw_match": len(r["results_raw"]), "fall_back": len(r.get("results_overflow") or [])})
+    if r.get("results_every") is not None:
+        # partial=True, full strength: the reference is EVERY match of PartialMatcher(prune_auto=False), partial ones included
+        if not cmp.subset(r["results"], r["results_every"]):
+            return ("rule application with partial=True returns a reaction that no match of the partial matcher gives",
+                    {"gained": sorted(set(r["results"]) - set(r["results_every"]))[:6], "every_match": r.get("n_every"), "kept_matches": r["n_map"]})
+        if not cmp.equal(r["results_every"], r["results"]):
+            return ("symmetry pruning under partial=True changes the set of distinct reactions compared with applying the rule at every match "
+                    "of the partial matcher",
+                    {"reference": "every match of PartialMatcher(prune_auto=False) for this very step, glued by the reactor's own internals",
+                     "every_match": r.get("n_every"), "matches_handed_to_the_rule_pruning": r["n_raw"], "kept_matches": r["n_map"],
+                     "with_pruning": len(r["results"]), "from_every_match": len(r["results_every"]),
+                     "lost": sorted(set(r["results_every"]) - set(r["results"]))[:6]})
     if cmp.equal(r["results_raw"], r["results"]):
         return None
     return ("symmetry pruning changes the set of distinct reactions compared with applying the rule at every raw match",
@@ -1217,6 +1577,9 @@ def make_history(rnd, bases_of_history):
                     "sform": "syngraph" if (share or rnd.random() < 0.2) else "smiles",
                     "automorphism": auto}
         mine = [step(t, True) for t in tvars]
+        for st in mine:
+            if st["sform"] == "smiles" and rnd.random() < 0.25:
+                st["ctor"] = "from_smiles"
         for _ in range(rnd.randint(1, 3)):
             mine.append(step(rnd.choice(tvars), rnd.random() < 0.6))
         mine.append(dict(rnd.choice(mine)))          # a verbatim repetition
@@ -1268,10 +1631,24 @@ def run_histories(ctx, pool, histories, timeout, stream, shrink=True):
                         ctx.count(f"{stream}:steps_with_>=2_raw_matches_and_>=2_distinct_reactions")
                     if r.get("n_map") is not None and r["n_map"] < n_raw:
                         ctx.count(f"{stream}:steps_where_pruning_removed_matches")
+            if r.get("overflow"):
+                ctx.count("reactor_pruning_fall_back(max_group exceeded):" + r["overflow"].split(":")[0])
+            if st.get("partial"):
+                ctx.count(f"{stream}:partial_steps")
+                if r.get("n_partial"):
+                    ctx.count(f"{stream}:partial_steps_with_partial_matches_handed_to_the_rule_pruning")
+                if r.get("n_every") is not None and r.get("n_raw") is not None and r["n_every"] > r["n_raw"]:
+                    ctx.count(f"{stream}:partial_steps_where_the_matcher's_host_orbit_pruning_removed_matches")
+                if r.get("results_every") is not None and r.get("results") is not None:
+                    ctx.count(f"{stream}:partial_steps_compared_with_every_match_of_the_partial_matcher")
+                    if len(r["results_every"]) >= 2:
+                        ctx.count(f"{stream}:partial_steps_with_>=2_distinct_reactions_from_every_match")
             ctx.count("reactor_automorphism:" + ("on" if st["automorphism"] else "off"))
             ctx.count("reactor_strategy:" + st["strategy"])
             ctx.count("reactor_template_form:" + ("graph" if (st["tform"] == "string" and st["core"]) else st["tform"]))
             ctx.count("reactor_substrate_form:" + st.get("sform", "smiles"))
+            if st.get("ctor") == "from_smiles" and st.get("sform", "smiles") == "smiles" and not st.get("partial"):
+                ctx.count("reactor_constructor:SynReactor.from_smiles")
             q = json.dumps(st, sort_keys=True)
             if q in seen_q:
                 ctx.count("reactor_steps_repeating_an_earlier_query")
@@ -1561,7 +1938,9 @@ def close_pool():
 
 def run_case_dict(ctx, c, stream):
     if c.get("kind") == "dedup":
-        run_dedup(ctx, [("regress", c["matches"], c["pattern_orbits"], c["pattern_anchor"], c["host_orbits"], None)], stream)
+        run_dedup(ctx, [("regress", c["matches"], c["pattern_orbits"], c["pattern_anchor"], c["host_orbits"], None, c.get("form"))], stream)
+    elif c.get("kind") == "entry":
+        run_entry(ctx, [c], stream)
     elif c.get("kind") == "session":
         run_sessions(ctx, [c], stream)
     elif c.get("kind") == "reactor-history":
@@ -1586,7 +1965,16 @@ def run(ctx):
         "one fresh forked process per history; its Lean side (pruning by rule automorphisms loses no result) is C05's",
     ]
     ctx.assumptions = [
-        "graphs are simple undirected NetworkX graphs with non-negative integer node ids",
+        "graphs are simple undirected NetworkX graphs (nx.Graph, no self-loops; a DiGraph makes the exact analysis raise NetworkXError in "
+        "VF2, a MultiGraph is not a documented input) with non-negative integer node ids; in stream entry the ids are negative ints, strings, "
+        "tuples or a mixture, and the model is asked about the same graph under a bijection of the ids onto naturals (the specification - number "
+        "of label-preserving automorphisms, classes of exchangeable nodes - is invariant under renaming nodes)",
+        "label values equal themselves (no float NaN): then VF2 always yields the identity and the branch `if not orbit_sets` of "
+        "_analyze_component is dead, as is its `number_of_nodes() == 0` branch (_analyze returns before, components are non-empty); "
+        "Automorphism._get_orbit_index has no caller",
+        "reactor clause under partial=True (not among C03's configurations, gated here because the sentence of the property covers every "
+        "symmetry pruning used during rule application): 'every match' = every mapping of PartialMatcher(prune_auto=False) built with the "
+        "arguments the reactor passes, partial mappings included, glued by the reactor's own internals",
         "'never separates an orbit' is gated on graphs whose nodes/edges all carry the selected attributes (the exact matcher reads a missing "
         "charge as 0 / element as '*' / order as 1.0, the estimate reads it as None); graphs with missing attributes are compared impl = model only",
         "attribute values of one key have one type (numbers in half-units, strings, booleans, tuples), so Python == is structural equality; "
@@ -1616,10 +2004,21 @@ def run(ctx):
                     "x {left, right side as written} x {balanced on an atom and its image, one position only} x 30% equal context atoms on a pair "
                     "of exchanged positions, applied forwards / backwards, as centre / full template, to a substrate grown from the matched side "
                     "(each open valence: hydrogen / random substituent; 15% of the substrates may keep radical centres; 20% a spectator molecule); "
-                    "one history per pair, 20% interleaved with a second pair.")
+                    "one history per pair, 20% interleaved with a second pair.  Stream entry (400 quick / 6000 thorough): base graph = 4% empty, "
+                    "4% single node, 5% 2-4 isolated nodes, 17% keys-stream skeletons with default labels, 10% malformed (labels missing), else "
+                    "family / uniform molecule-like / random (dis)connected; x node ids uniformly from {int, negative int, str, tuple, mixed "
+                    "(exact analysis only)} x anchor_largest_component 50/50 x key lists from {defaults given, None, element only, [] / [], "
+                    "defaults / [], permuted} x key container {list, tuple, iterator} x estimate via {constructor, estimate_automorphism_groups} "
+                    "x random order of reading the 7 exact and 8 estimate views x max_iter as above.  Dedup call forms (35% of the dedup cases): "
+                    "matches as list/tuple/iterator x orbit container list/tuple/iterator x orbit as frozenset/set/tuple/list x anchor as "
+                    "frozenset/set x host_anchor absent / random subset of host nodes / all host nodes.  Pruning fall-back: every reactor step "
+                    "with >= 2 raw matches, max_group=0.  Stream reactor-partial (24 histories quick / 400 thorough): half corpus pairs whose "
+                    "pattern has >= 2 components, half generated symmetric-skeleton rules; histories as in stream reactor, each step "
+                    "partial=True with probability 0.8; reference of a partial step: every match of PartialMatcher(prune_auto=False).")
     ctx.nontrivial_rule = ("graph case: >=2 nodes and (a non-trivial automorphism or >=2 components), distinct as encoded graph + keys + max_iter; "
                            "dedup case: >=2 matches and at least one orbit argument, distinct as JSON value; session query: as graph case on the "
-                           "snapshot; reactor step: >=2 raw matches, distinct as history prefix")
+                           "snapshot; entry case: as graph case, distinct as graph + id kind + keys + max_iter + flag + estimate route; "
+                           "reactor step: >=2 raw matches, distinct as history prefix")
     build_and_audit(ctx, ["SynKitProofs.Props.C11"], "SynKitProofs/Audit/C11.lean", THEOREMS)
     try:
         _run_streams(ctx)
@@ -1715,6 +2114,17 @@ def _run_streams(ctx):
                    "views): every answer equals the model's answer for the graph as it is at that moment", len(ctx.violations) == nv)
 
     stamp("session")
+    # alternative entry points and options
+    nv = len(ctx.violations)
+    ecases = [entry_case(rnd) for _ in range(400 if ctx.quick else 6000)]
+    if not ctx.violations:
+        run_entry(ctx, ecases, "entry")
+    ctx.obligation("alternative entry points (anchor_largest_component=False, empty / single-node / edgeless graphs, negative / string / tuple / "
+                   "mixed node ids, len / is_connected / repr, AutoEst.groups / orbit_index / node_colors / n_orbits / n_groups / len, "
+                   "estimate_automorphism_groups with list / tuple / iterator key arguments, empty key lists): impl == model, every view of the "
+                   "estimate coarser than exact", len(ctx.violations) == nv)
+
+    stamp("entry")
     nv = len(ctx.violations)
     dcases = [dedup_case(rnd) for _ in range(ndedup)]
     # the same call again later (after other calls), and the same match list under another orbit argument
@@ -1750,6 +2160,26 @@ def _run_streams(ctx):
     ctx.obligation("rule application with generated symmetric-skeleton rules whose symmetry ONE attribute of the rule breaks (charge / hydrogen "
                    "count / bond order, on the left or right side, applied forwards and backwards) and their unbroken controls: the pruned result "
                    "set equals the set obtained from every raw match of the same query", len(ctx.violations) == nv)
+
+    # non-default option partial=True: the reactor takes its matches from PartialMatcher (partial matches included) and hands them
+    # to the same rule-automorphism pruning, which must pass partial matches through; reference: every match of the partial matcher
+    nv2 = len(ctx.violations)
+    if not ctx.violations:
+        n_par, timeout = (24, 10.0) if ctx.quick else (400, 60.0)
+        pb = reactor_bases(ctx, 6 if ctx.quick else 30, 40 if ctx.quick else 60)
+        pb = [b for b in pb if "." in b["template"].split(">>")[1 if b["invert"] else 0]] or pb      # patterns with >= 2 components first
+        rnd.shuffle(pb)
+        pb = pb[:n_par // 2] + sym_rule_bases(ctx, n_par - min(len(pb), n_par // 2), "reactor-partial")
+        histories = []
+        for b in pb:
+            h = make_history(rnd, [b])
+            for st in h:
+                st["partial"] = rnd.random() < 0.8
+            histories.append(h)
+        run_histories(ctx, history_pool(), histories, timeout, "reactor-partial")
+        stamp("reactor-partial")
+    ctx.obligation("rule application with partial=True (matches, partial ones included, from PartialMatcher): the result set with pruning equals the "
+                   "set obtained from every match of PartialMatcher(prune_auto=False) of the same query", len(ctx.violations) == nv2)
 
 
 def replay(ctx, case):
